@@ -481,6 +481,11 @@ def real_run(ctx, scene, gids, origins, use_ref, expand, enforce, lines, pending
         ctx.oracle_fail(case, {'what': "number of 'Aligning image catalog' records differs from the number of "
                                        "groups passed to align_to_ref", 'records': len(recs),
                                'aligned': len(obs.aligned)})
+    # "the current reference footprint": after every expansion it is the footprint of the catalog's rows
+    for b in alignsim.stale_footprints(obs):
+        ctx.oracle_fail(case, dict({'what': 'after expand_catalog the footprint of the reference catalog (which '
+                                            'decides the next overlap) is not the footprint of its rows'}, **b))
+        break
     # every group is processed exactly once (aligned, or taken as the reference)
     refgroups = [g for g in names if all(status[int(m[2:])] == 'REFERENCE' for m in g)]
     processed = obs.aligned + (refgroups if not use_ref else [])
@@ -780,6 +785,20 @@ def guarded_area_checks(ctx):
         if len(ref_ids) >= 3:
             rd = scene.sky_of(ref_ids)
             refs.append(RefCatalog(Table([rd[:, 0], rd[:, 1]], names=('RA', 'DEC'))))
+        if refs and len(scene.ids) > len(ref_ids) + 3:
+            # grow the reference catalog by the remaining sources: its footprint (hence every later
+            # overlap) must follow its rows
+            r2 = RefCatalog(Table([rd[:, 0], rd[:, 1]], names=('RA', 'DEC')))
+            rest = [k for k in scene.ids if k not in set(ref_ids)]
+            rd2 = scene.sky_of(rest)
+            r2.expand_catalog(Table([rd2[:, 0], rd2[:, 1]], names=('RA', 'DEC')))
+            n2, a2, f2 = alignsim.footprint_after_expansion(r2)
+            case = {'op': 'expanded-footprint', 'rows': n2}
+            ctx.case(dict(case, area=a2, fresh=f2), nontrivial=True, branch='guarded:expanded-footprint')
+            if abs(a2 - f2) > 1e-3 * max(a2, f2):
+                ctx.oracle_fail(case, {'what': 'after expand_catalog the footprint of the reference catalog is not '
+                                               'the footprint of its rows', 'area': a2, 'area_fresh': f2})
+            refs.append(r2)
         pool = [('image', o) for o in singles] + [('group%d' % len(list(g)), g) for g in groups] + \
                [('refcat', r) for r in refs]
         for (ka, a) in pool:
